@@ -1123,6 +1123,9 @@ func CheckSignatureFromKey(publicKey interface{}, algo SignatureAlgorithm, signe
 		if dsaSig.R.Sign() <= 0 || dsaSig.S.Sign() <= 0 {
 			return errors.New("x509: DSA signature contained zero or negative values")
 		}
+		if !isExactlyRS(signature, *dsaSig) {
+			return errors.New("x509: DSA signature is not the DER encoding of SEQUENCE{r,s}")
+		}
 		// FIPS 186-4, section 4.6: z is the leftmost min(N, outlen) bits of the
 		// digest; dsa.Verify does not perform that truncation itself.
 		if pub.Q != nil {
@@ -1144,6 +1147,9 @@ func CheckSignatureFromKey(publicKey interface{}, algo SignatureAlgorithm, signe
 		if ecdsaSig.R.Sign() <= 0 || ecdsaSig.S.Sign() <= 0 {
 			return errors.New("x509: ECDSA signature contained zero or negative values")
 		}
+		if !isExactlyRS(signature, *ecdsaSig) {
+			return errors.New("x509: ECDSA signature is not the DER encoding of SEQUENCE{r,s}")
+		}
 		if !ecdsa.Verify(pub, digest, ecdsaSig.R, ecdsaSig.S) {
 			return errors.New("x509: ECDSA verification failure")
 		}
@@ -1156,6 +1162,9 @@ func CheckSignatureFromKey(publicKey interface{}, algo SignatureAlgorithm, signe
 		if ecdsaSig.R.Sign() <= 0 || ecdsaSig.S.Sign() <= 0 {
 			return errors.New("x509: ECDSA signature contained zero or negative values")
 		}
+		if !isExactlyRS(signature, *ecdsaSig) {
+			return errors.New("x509: ECDSA signature is not the DER encoding of SEQUENCE{r,s}")
+		}
 		if !ecdsa.Verify(pub.Pub, digest, ecdsaSig.R, ecdsaSig.S) {
 			return errors.New("x509: ECDSA verification failure")
 		}
@@ -1167,6 +1176,15 @@ func CheckSignatureFromKey(publicKey interface{}, algo SignatureAlgorithm, signe
 		return
 	}
 	return ErrUnsupportedAlgorithm
+}
+
+// isExactlyRS reports whether signature is exactly the DER encoding of the
+// already decoded sig (SEQUENCE{r,s}): asn1.Unmarshal ignores content that
+// follows the last field inside the SEQUENCE, and callers may ignore what
+// follows the SEQUENCE, so the decoded value is encoded again and compared.
+func isExactlyRS(signature []byte, sig interface{}) bool {
+	enc, err := asn1.Marshal(sig)
+	return err == nil && bytes.Equal(enc, signature)
 }
 
 // CheckSignature verifies that signature is a valid signature over signed from
